@@ -80,7 +80,9 @@ def extract(config="default", repo=REPO, verbose=False):
     th = tree_hash(repo, extra=driver_sources())
     out = os.path.join(CACHE, "facts", f"{th}-{config}")
     os.makedirs(os.path.join(CACHE, "facts"), exist_ok=True)
-    lock = open(os.path.join(CACHE, "extract.lock"), "w")
+    # one extraction at a time per cargo target directory; parallel self-test workers (LM_WORKER=w3) own a target directory each
+    worker = os.environ.get("LM_WORKER", "")
+    lock = open(os.path.join(CACHE, f"extract{('-' + worker) if worker else ''}.lock"), "w")
     fcntl.flock(lock, fcntl.LOCK_EX)
     try:
         exp = EXPECTED if config not in ("nodefault", "aarch64") else ["lightmotif.rlib"]
@@ -89,7 +91,7 @@ def extract(config="default", repo=REPO, verbose=False):
         tmp = out + ".tmp"
         shutil.rmtree(tmp, ignore_errors=True)
         os.makedirs(tmp)
-        target = os.path.join(CACHE, "target-" + config)
+        target = os.path.join(CACHE, "target-" + config + (("-" + worker) if worker else ""))
         _clean_member_fingerprints(target, AARCH64 if config == "aarch64" else None)
         env = dict(os.environ)
         env.update(
@@ -121,11 +123,26 @@ def extract(config="default", repo=REPO, verbose=False):
             raise ExtractError("driver produced no fact file for: " + ", ".join(missing))
         shutil.rmtree(out, ignore_errors=True)
         os.rename(tmp, out)
-        # prune old fact dirs (keep the 6 most recent)
+        # prune old fact dirs (keep the most recent ones; more when several workers share the cache, and never one younger than 15 minutes)
+        keep = int(os.environ.get("LM_CACHE_KEEP", "8") or 8)
         base = os.path.join(CACHE, "facts")
-        ds = sorted((os.path.getmtime(os.path.join(base, d)), d) for d in os.listdir(base))
-        for _, d in ds[:-8]:
-            shutil.rmtree(os.path.join(base, d), ignore_errors=True)
+        plock = open(os.path.join(CACHE, "prune.lock"), "w")
+        fcntl.flock(plock, fcntl.LOCK_EX)
+        try:
+            ds = []
+            for d in os.listdir(base):
+                try:
+                    ds.append((os.path.getmtime(os.path.join(base, d)), d))
+                except OSError:
+                    pass
+            ds.sort()
+            now = time.time()
+            for mt, d in ds[:-keep]:
+                if now - mt > 900 or not worker:
+                    shutil.rmtree(os.path.join(base, d), ignore_errors=True)
+        finally:
+            fcntl.flock(plock, fcntl.LOCK_UN)
+            plock.close()
         return out, th, True
     finally:
         fcntl.flock(lock, fcntl.LOCK_UN)
